@@ -457,6 +457,35 @@ impl Property for C01 {
             cfg.end_mid = false;
         }
         let prog = gen_program(rng, cfg.clone());
+        if !cfg.tron && !cfg.stop && !cfg.end_mid && !cfg.fns && !prog.lines.is_empty() && rng.pct(8) {
+            // tracing switched on from the prompt and left on over several commands that enter the
+            // program at its first line, at arbitrary lines, and twice in one direct line
+            let n = prog.lines.len();
+            let mut session = vec![Step::Direct(vec![Stmt::Tron])];
+            for _ in 0..(2 + rng.below(3)) {
+                let t = Target::L(if rng.pct(50) { 0 } else { rng.usize(n) });
+                session.push(Step::Direct(match rng.below(5) {
+                    0..=1 => vec![Stmt::Run(None)],
+                    2 => vec![Stmt::Run(Some(t))],
+                    3 => vec![Stmt::Goto(t)],
+                    _ => vec![Stmt::Gosub(t.clone()), Stmt::Gosub(t)],
+                }));
+            }
+            session.push(Step::Direct(vec![Stmt::Troff]));
+            let mut case = C01Case {
+                prog,
+                session,
+                replies: vec![],
+                sched_variant: rng.usize(7),
+                sched_seed: rng.next_u64(),
+                entropy: rng.next_u64(),
+                hold_snapshot: false,
+                prop: "C01",
+            };
+            let (_res, r) = case.reference(Some(rng.fork()));
+            case.replies = r.used_replies.clone();
+            return Box::new(case);
+        }
         let session = build_session(rng, &prog, &cfg);
         let mut case = C01Case {
             prog,
@@ -484,7 +513,7 @@ impl Property for C01 {
         }
     }
     fn rule(&self) -> &'static str {
-        "one evaluation = one generated program (3-60 lines: LET, PRINT, IF-THEN-ELSE with statement and line branches, GOTO, GOSUB/RETURN incl. guarded recursion, ON..GOTO/GOSUB with selectors below/inside/above the list, FOR/NEXT with NEXT lists, negative and fractional steps, early exit, WHILE/WEND, END, STOP, INPUT, READ/DATA/RESTORE, DIM, DEF FN, TRON/TROFF, REM, multi-statement lines, planted runtime errors) plus a typed session (direct statements, RUN / RUN n / GOTO n, CONT after every stop) executed under one of 7 seeded quantum distributions; the full screen transcript of every typed line is compared with RefBASIC; distinct = distinct API/event log fingerprint; non-trivial = more than 10 VM instructions; cases the model does not judge (grey) are discarded and counted"
+        "one evaluation = one generated program (3-60 lines: LET, PRINT, IF-THEN-ELSE with statement and line branches, GOTO, GOSUB/RETURN incl. guarded recursion, ON..GOTO/GOSUB with selectors below/inside/above the list, FOR/NEXT with NEXT lists, negative and fractional steps, early exit, WHILE/WEND, END, STOP, INPUT, READ/DATA/RESTORE, DIM, DEF FN, TRON/TROFF, REM, multi-statement lines, planted runtime errors) plus a typed session (direct statements, RUN / RUN n / GOTO n, CONT after every stop; 8% of the sessions switch tracing on at the prompt and issue 2-4 RUN / RUN n / GOTO n / GOSUB n:GOSUB n commands before TROFF) executed under one of 7 seeded quantum distributions; the full screen transcript of every typed line is compared with RefBASIC; distinct = distinct API/event log fingerprint; non-trivial = more than 10 VM instructions; cases the model does not judge (grey) are discarded and counted"
     }
     fn assumptions(&self) -> Vec<&'static str> {
         vec![
